@@ -1,4 +1,5 @@
 import MpVerif.C02.LemmasTop
+import MpVerif.C02.LemmasTotal
 /-!
 # C02 — property theorems
 
@@ -135,5 +136,99 @@ theorem C02_header_first (data : ByteArray) (flags : Nat) (objsel : Option Nat)
   intro ho
   rw [ho] at hc
   simp [Outcome.isOk] at hc
+
+/-! ### termination -/
+
+theorem nofuel_then_emit {p : P Unit} {e : Ev} {s : PState} (h : NoFuel (p s)) :
+    NoFuel ((do p; emit e : P Unit) s) := by
+  show NoFuel (P.bind p (fun _ => emit e) s)
+  unfold P.bind
+  cases hp : p s with
+  | ok a s1 => trivial
+  | err e evs => trivial
+  | ub u evs => trivial
+  | fuel => rw [hp] at h; exact h
+
+theorem readBody_nofuel (cx : Env) (s : PState) : NoFuel (readBody cx s) := by
+  have pm := primMono cx.inp cx.k
+  unfold readBody
+  split
+  · have h1 := readLoop_nofuel (cx := { cx with objsel := none }) pm (loopFuel cx.inp) true none ⟨s.r, []⟩
+      (by simp only [loopFuel]; omega)
+    simp only []
+    generalize readLoop { inp := cx.inp, k := cx.k, h := cx.h, flags := cx.flags, objsel := none }
+      (loopFuel cx.inp) true none ⟨s.r, []⟩ = res at h1
+    cases res with
+    | ok a s1 =>
+      simp only
+      apply nofuel_then_emit
+      apply readLoop_nofuel pm
+      simp only [loopFuel]
+      omega
+    | err e evs => trivial
+    | ub u evs => trivial
+    | fuel => exact h1
+  · apply nofuel_then_emit
+    apply readLoop_nofuel pm
+    simp only [loopFuel]
+    omega
+
+theorem finish_nofuel {h : Header} {res : PRes Unit} (hn : NoFuel res) : (finish h res).outcome ≠ .fuel := by
+  cases res <;> simp [finish] at hn ⊢
+  exact hn
+
+/-- **C02 (termination).**  The recursion of the reader (expression nesting, argument loops, the segment
+    loop, both passes of READ_BOUNDS_FIRST) is bounded by the number of bytes consumed: the model's fuel
+    (`len + 2` per expression, `2·len + 4` segment iterations) is never exhausted, for any input. -/
+theorem C02_total (data : ByteArray) (flags : Nat) (objsel : Option Nat) :
+    (readNL data flags objsel).outcome ≠ .fuel := by
+  unfold readNL
+  simp only []
+  split
+  · simp
+  · simp
+  · split
+    · exact finish_nofuel (readBody_nofuel _ _)
+    split
+    · exact finish_nofuel (readBody_nofuel _ _)
+    split
+    · exact finish_nofuel (readBody_nofuel _ _)
+    · simp
+
+/-! ### undefined behaviour
+
+After the fixes 1efd01c, e1c4ee8, e61f0aa, 984b1d0 (found by this check: `(long)tmp` on an out-of-range
+header option, `num_compl_conds += ..`, `ConHandler::num_items()`, `num_items + 1`) the reader contains no
+conversion or signed-arithmetic UB any more: the model has a located read error (`integer overflow`) or
+an early `break` at these points, and the corresponding inputs are regression cases of the correspondence
+(`FIXED` in checks/c02_gen.py).
+
+The only undefined behaviour left in the model is the explicit guard `ub overrun` (dereferencing the
+cursor past the terminating NUL).  Full-strength statement, NOT proved (it needs a fourth pass over the
+parser with the invariant "a non-NUL `ReadChar` result implies the cursor is inside the buffer"); it is
+observed only (ASan on exact-size heap copies, `ub:overrun` never predicted by the model on any run):
+
+    theorem C02_no_ub (data flags objsel) : ∀ u, (readNL data flags objsel).outcome ≠ .ub u
+
+What is proved about such an outcome: -/
+
+/-- if the model ever reported `ub`, everything delivered up to that point is still consistent with the
+    header, and the outcome is not an artefact of the recursion fuel -/
+theorem C02_no_ub_partial (data : ByteArray) (flags : Nat) (objsel : Option Nat) (u : UB)
+    (_hu : (readNL data flags objsel).outcome = .ub u) :
+    Consistent objsel.isNone (readNL data flags objsel) = true ∧ (readNL data flags objsel).outcome ≠ .fuel :=
+  ⟨C02_consistent data flags objsel, C02_total data flags objsel⟩
+
+def bytesOf (l : List Nat) : ByteArray := ⟨(l.map Nat.toUInt8).toArray⟩
+
+/-- regression of fix e1c4ee8: `g1 1e30\n` stops option reading and then fails on the missing newline/
+    dimension line instead of converting 1e30 to `long` -/
+theorem C02_fixed_float_cast :
+    (readNL (bytesOf [103, 49, 32, 49, 101, 51, 48, 10]) 0 none).outcome = .err ⟨.uint, false, 2, 1⟩ := by decide
+
+/-- regression of fix 984b1d0: header line 3 ` 0 0 2147483647 1` is a located `integer overflow` error -/
+theorem C02_fixed_compl_overflow :
+    (readNL (bytesOf [103, 10, 32, 49, 32, 48, 32, 48, 10, 32, 48, 32, 48, 32, 50, 49, 52, 55, 52, 56, 51, 54, 52, 55, 32, 49, 10]) 0 none).outcome
+      = .err ⟨.ioverflow, false, 3, 18⟩ := by decide
 
 end MpVerif.C02
